@@ -99,7 +99,9 @@ def check(ctx, replay=None):
             raise vlib.Machinery("the cold run does not give the expected profile: %s" % (cold,))
         want = cold["names"]
         # first-run fates from the specification: every disassembler failure point and every kill point, tool missing, clean
-        fates = ["ok", "missing"] + ["fail_after_%d" % i for i in range(NCHUNKS + 1)] + ["kill_after_%d" % i for i in range(NCHUNKS + 1)]
+        # (sig_after_i: the disassembler itself dies from a signal - OOM killer, crash - after chunk i; a failure like a non-zero exit)
+        fates = (["ok", "missing"] + ["fail_after_%d" % i for i in range(NCHUNKS + 1)] + ["kill_after_%d" % i for i in range(NCHUNKS + 1)]
+                 + ["sig_after_%d" % i for i in range(NCHUNKS + 1)])
         reps = 8 if th else 1
         plan = [(fate, rebuilt, "target") for fate in fates for rebuilt in (False, True)]
         plan += [(fate, False, LONG) for fate in ["ok", "missing", "fail_after_1"] + ["kill_after_%d" % i for i in range(NCHUNKS + 1)]]
@@ -131,7 +133,7 @@ def check(ctx, replay=None):
                     if second is None:
                         ctx.skip("second run timed out (%s)" % fate)
                         continue
-                    if fate.startswith("fail") or fate == "missing":
+                    if fate.startswith(("fail", "sig")) or fate == "missing":
                         if first["rc"] == 0:
                             # the statement constrains the NEXT run only: recorded, not a verdict
                             ctx.note("the disassembler failed (%s) but the profiler exited with status 0 and a profile of %s" % (fate, first["names"]))
